@@ -198,6 +198,9 @@ class Model:
             # constructor) and results of solveExplicitPDE
             w.ngroups = getattr(w, "ngroups", 1) + 1
             nv._mc_group = w.slots[t]._mc_group if p[2] == "share" else w.ngroups
+            # copies and arithmetic results carry the BC content of their source
+            if p[2] in ("copy", "add1", "mul2") and self._bc_bytes(nv.BCs) != self._bc_bytes(w.slots[t].BCs):
+                raise AssertionError("result of %s does not carry the boundary conditions of its operand" % p[2])
 
     def apply(self, w, op):
         info = self._shadow_before(w, op)
